@@ -234,6 +234,145 @@ Proof.
   exact (C04_source_generic_reads_valid_streams (emitted evs) _ dl (triples_stream_valid_ns o s s' d evs Hnew Hcfg Hfresh Hrun Hraise)).
 Qed.
 
+(* ------------------------------------------------------------------ the flat parser itself (translated): parse_triples_stream /
+   parse_quads_stream / parse_jelly_flat of integrations/generic/parse.py, once get_options_and_frames (IO: not translated) has
+   produced the options and the frames *)
+Definition first_err (res : list (list (option gobj) * option PyPrims.exn)) : option PyPrims.exn :=
+  fold_right (fun x acc => match snd x with Some e => Some e | None => acc end) None res.
+
+Lemma first_err_cons x res : first_err (x :: res) = match snd x with Some e => Some e | None => first_err res end.
+Proof. reflexivity. Qed.
+
+Lemma gd_frames_err_last fms (d : GDec) : forall e, first_err (gd_frames fms d) = Some e ->
+  exists pre ys, gd_frames fms d = pre ++ [(ys, Some e)] /\ Forall (fun x => snd x = None) pre.
+Proof.
+  revert d. induction fms as [|fm fms IH]; intros d e; cbn [gd_frames first_err fold_right]; [discriminate|].
+  destruct (gd_iter fm d) as [[r d'] ys]. destruct r as [u|e0]; cbn [fold_right snd].
+  - intros H. destruct (IH d' e H) as (pre & ys' & -> & Hp). exists ((ys, None) :: pre), ys'. split; [reflexivity | constructor; [reflexivity | exact Hp]].
+  - intros [= <-]. exists [], ys. split; [reflexivity | constructor].
+Qed.
+
+(* the loop of parse_*_stream is gd_frames *)
+Lemma stream_loop_is (loop : list (pbval str) -> list (pbval str) * list (list (option gobj)) * GDec -> loopres unit (list (pbval str) * list (list (option gobj)) * GDec)) :
+  (forall xs st, loop xs st = match xs with
+                             | [] => LContinue st
+                             | frame :: xs' =>
+                               let '(frames, ys, decoder) := st in
+                               let '(r, decoder', ys1) := gd_iter frame decoder in
+                               match r with
+                               | Exn e => LRaise e (frames, ys ++ [ys1], decoder')
+                               | Val _ => loop xs' (frames, ys ++ [ys1], decoder')
+                               end
+                             end) ->
+  forall xs frames ys d,
+    match loop xs (frames, ys, d), first_err (gd_frames xs d) with
+    | LContinue (fr', ys', _), None => fr' = frames /\ ys' = ys ++ map fst (gd_frames xs d)
+    | LRaise e (fr', ys', _), Some e' => e = e' /\ fr' = frames /\ ys' = ys ++ map fst (gd_frames xs d)
+    | _, _ => False
+    end.
+Proof.
+  intros Hl. induction xs as [|x xs IH]; intros frames ys d; rewrite Hl.
+  - cbn. rewrite app_nil_r. split; reflexivity.
+  - cbn [gd_frames]. destruct (gd_iter x d) as [[r d'] ys1]. destruct r as [u|e]; rewrite first_err_cons; cbn [snd map fst].
+    + specialize (IH frames (ys ++ [ys1]) d').
+      destruct (loop xs (frames, ys ++ [ys1], d')) as [[[fr' ys'] d2]|rv [[fr' ys'] d2]|e [[fr' ys'] d2]];
+        destruct (first_err (gd_frames xs d')) as [e'|]; try contradiction.
+      * destruct IH as (-> & ->). split; [reflexivity|]. rewrite <- app_assoc. reflexivity.
+      * destruct IH as (-> & -> & ->). repeat split. rewrite <- app_assoc. reflexivity.
+    + repeat split.
+Qed.
+
+Lemma flatten_loop_is {X} (loop : list (list X) -> list (pbval str) * list X -> loopres unit (list (pbval str) * list X)) :
+  (forall xs st, loop xs st = match xs with
+                             | [] => LContinue st
+                             | t :: xs' => let '(frames, ys) := st in loop xs' (frames, ys ++ t)
+                             end) ->
+  forall xs frames ys, loop xs (frames, ys) = LContinue (frames, ys ++ concat xs).
+Proof.
+  intros Hl. induction xs as [|x xs IH]; intros frames ys; rewrite Hl; cbn [concat].
+  - rewrite app_nil_r. reflexivity.
+  - rewrite IH, app_assoc. reflexivity.
+Qed.
+
+Lemma parse_triples_stream_is fms opts a (d : GDec) :
+  GenericTriplesAdapter___init__ SN opts = Val a -> Decoder___init__ SN Adapter_options a = Val d ->
+  parse_triples_stream SN fms opts =
+  (match first_err (gd_frames fms d) with Some e => Exn e | None => Val tt end, fms, map fst (gd_frames fms d)).
+Proof.
+  intros Ha Hd. unfold parse_triples_stream. cbv zeta. rewrite Ha, Hd.
+  match goal with |- context [?f fms (fms, @nil (list (option gobj)), d)] => set (loop := f) end.
+  pose proof (stream_loop_is loop ltac:(intros [|x xs] [[fr ys] dd]; reflexivity) fms fms [] d) as H. change (carrier SN) with str in *.
+  destruct (loop fms (fms, [], d)) as [[[fr' ys'] d2]|rv [[fr' ys'] d2]|e [[fr' ys'] d2]];
+    destruct (first_err (gd_frames fms d)) as [e'|]; try contradiction.
+  - destruct H as (-> & ->). reflexivity.
+  - destruct H as (-> & -> & ->). reflexivity.
+Qed.
+
+Lemma parse_quads_stream_is fms opts a (d : GDec) :
+  (if StreamTypes_physical_type (ParserOptions_stream_types opts) =? 2 then GenericQuadsAdapter___init__ SN opts else GenericGraphsAdapter___init__ SN opts) = Val a ->
+  Decoder___init__ SN Adapter_options a = Val d ->
+  parse_quads_stream SN fms opts =
+  (match first_err (gd_frames fms d) with Some e => Exn e | None => Val tt end, fms, map fst (gd_frames fms d)).
+Proof.
+  intros Ha Hd. unfold parse_quads_stream. cbv zeta.
+  destruct (StreamTypes_physical_type (ParserOptions_stream_types opts) =? 2); cbv beta iota; rewrite Ha, Hd;
+    (match goal with |- context [?f fms (fms, @nil (list (option gobj)), d)] => set (loop := f) end;
+     pose proof (stream_loop_is loop ltac:(intros [|x xs] [[fr ys] dd]; reflexivity) fms fms [] d) as H; change (carrier SN) with str in *;
+     destruct (loop fms (fms, [], d)) as [[[fr' ys'] d2]|rv [[fr' ys'] d2]|e [[fr' ys'] d2]];
+       destruct (first_err (gd_frames fms d)) as [e'|]; try contradiction;
+     [destruct H as (-> & ->); reflexivity | destruct H as (-> & -> & ->); reflexivity]).
+Qed.
+
+Lemma no_err_forallb res : snd (g_flat res) = true -> first_err res = None.
+Proof.
+  unfold g_flat. cbn [snd]. induction res as [|[ys [e|]] res IH]; cbn; try discriminate; [reflexivity | exact IH].
+Qed.
+
+Lemma flat_map_concat {X Y} (f : X -> list Y) l : flat_map f l = concat (map f l).
+Proof. induction l as [|x l IH]; cbn; [reflexivity | rewrite IH; reflexivity]. Qed.
+
+(* C04 with the translated flat parser of the generic integration: any stream the referee accepts, as message objects, through
+   parse_jelly_flat(frames, options) -- the adapter class chosen by the physical type, Decoder(adapter), iter_rows per frame, the
+   yields flattened -- gives exactly the objects of the events it denotes, and ends normally *)
+Theorem C04_source_generic_flat_parser :
+  forall (fs : list frame) (evs : list event) (dl : bool),
+    run_frames fs = Valid evs ->
+    exists po, (exists sk first more, skip_empty fs = (sk, first :: more) /\ Decoder.options_from_frame first dl = Ok po) /\
+      (types_named (ParserOptions_stream_types (popts_obj po)) ->
+       let fms := map (frame_msg (rmsg gput)) fs in
+       parse_jelly_flat SN fms (popts_obj po) false = (Val tt, fms, map (fun e => Some (obj_of_event e)) evs)).
+Proof.
+  intros fs evs dl Hv.
+  destruct (C04_source_generic_reads_valid_streams fs evs dl Hv) as (po & ak & st0 & sk & first & more & H1 & H2 & H3 & H4 & H5).
+  exists po. split; [exists sk, first, more; split; assumption|].
+  intros Hty fms. destruct (H5 Hty) as (a & gd & Ha & Hd & Hflat). fold fms in Hflat.
+  pose proof (no_err_forallb _ ltac:(rewrite Hflat; reflexivity)) as Hne.
+  assert (Hys : concat (map fst (gd_frames fms gd)) = map (fun e => Some (obj_of_event e)) evs).
+  { rewrite <- flat_map_concat. pose proof (f_equal fst Hflat) as Hf. exact Hf. }
+  unfold parse_jelly_flat. cbv zeta. unfold StreamTypes_flat. cbv beta iota zeta. cbn [andb].
+  unfold route in H3.
+  change (StreamTypes_physical_type (ParserOptions_stream_types (popts_obj po))) with (Z.of_N (po_phys po)).
+  destruct (po_phys po =? 1)%N eqn:E1.
+  - apply N.eqb_eq in E1. rewrite E1. injection H3 as <-. cbn [adapter_ctor] in Ha. cbn [Z.of_N Z.eqb Pos.eqb].
+    rewrite (parse_triples_stream_is fms (popts_obj po) a gd Ha Hd), Hne. cbv beta iota.
+    match goal with |- context [?f (map fst (gd_frames fms gd)) (fms, @nil (option gobj))] => set (loop := f) end.
+    rewrite (flatten_loop_is loop ltac:(intros [|x xs] [fr ys]; reflexivity)). cbn [app]. rewrite Hys. reflexivity.
+  - destruct (po_phys po =? 2)%N eqn:E2.
+    + apply N.eqb_eq in E2. rewrite E2. injection H3 as <-. cbn [adapter_ctor] in Ha. cbn [Z.of_N Z.eqb Pos.eqb orb].
+      rewrite (parse_quads_stream_is fms (popts_obj po) a gd
+                 ltac:(change (StreamTypes_physical_type (ParserOptions_stream_types (popts_obj po))) with (Z.of_N (po_phys po)); rewrite E2; exact Ha) Hd), Hne.
+      cbv beta iota.
+      match goal with |- context [?f (map fst (gd_frames fms gd)) (fms, @nil (option gobj))] => set (loop := f) end.
+      rewrite (flatten_loop_is loop ltac:(intros [|x xs] [fr ys]; reflexivity)). cbn [app]. rewrite Hys. reflexivity.
+    + destruct (po_phys po =? 3)%N eqn:E3; [|discriminate].
+      apply N.eqb_eq in E3. rewrite E3. injection H3 as <-. cbn [adapter_ctor] in Ha. cbn [Z.of_N Z.eqb Pos.eqb orb].
+      rewrite (parse_quads_stream_is fms (popts_obj po) a gd
+                 ltac:(change (StreamTypes_physical_type (ParserOptions_stream_types (popts_obj po))) with (Z.of_N (po_phys po)); rewrite E3; exact Ha) Hd), Hne.
+      cbv beta iota.
+      match goal with |- context [?f (map fst (gd_frames fms gd)) (fms, @nil (option gobj))] => set (loop := f) end.
+      rewrite (flatten_loop_is loop ltac:(intros [|x xs] [fr ys]; reflexivity)). cbn [app]. rewrite Hys. reflexivity.
+Qed.
+
 Print Assumptions grmsg_owner.
 Print Assumptions generic_reads_written_frames.
 Print Assumptions C01_source_generic_triples.
@@ -241,3 +380,4 @@ Print Assumptions C01_source_generic_quads.
 Print Assumptions C01_source_generic_graphs.
 Print Assumptions C04_source_generic_reads_valid_streams.
 Print Assumptions C14_source_generic_triples.
+Print Assumptions C04_source_generic_flat_parser.
